@@ -447,8 +447,7 @@ def ringOf (hs : List Hash) : List Nsec :=
 
 theorem cmpName_single (a b : Hash) : cmpName [a] [b] = cmpLabel a b := by
   unfold cmpName
-  simp only [cmpList]
-  cases cmpLabel a b <;> simp [cmpList]
+  cases h : cmpLabel a b <;> simp [cmpList, h]
 
 theorem ringOf_cover_excludes (hs : List Hash) (hd : hs.Pairwise (· ≠ ·)) (r : Nsec) (hr : r ∈ ringOf hs)
     (o n : Hash) (ho : r.owner = [o]) (hn : r.next = [n]) (h : Hash)
@@ -508,5 +507,159 @@ theorem ringOf_cover_excludes (hs : List Hash) (hd : hs.Pairwise (· ≠ ·)) (r
           rcases hc with hc | hc
           · exact h1 ((lawful_cmpLabel.gt_iff _ _).mp hc)
           · exact h2 hc
+
+
+/-! ### EvaluateAggressiveNSEC3: NXDOMAIN soundness for an arbitrary hash -/
+
+/-- an admitted aggressive entry mirrors one of the caller's records. -/
+def EntryOf (records : List Nsec3) (e : Entry3) : Prop :=
+  ∃ r ∈ records, r.ownerHash = some e.ownerHash ∧ r.next = some e.nextHash ∧ e.flags = r.flags
+
+theorem addEntry3_ok {qclass : Nat} {zone : Name} {first : Nsec3} {acc acc' : List Entry3} {p : Nat × Nsec3}
+    (h : addEntry3 qclass zone first acc p = .ok acc') :
+    ∀ x ∈ acc', x ∈ acc ∨ (p.2.ownerHash = some x.ownerHash ∧ p.2.next = some x.nextHash ∧ x.flags = p.2.flags) := by
+  unfold addEntry3 at h
+  simp only at h
+  split at h
+  · cases h
+  · split at h
+    · cases h
+    · split at h
+      · cases h
+      · split at h
+        · cases h
+        · split at h
+          · rename_i oh nh ho hn
+            split at h
+            · cases h
+            · split at h
+              · split at h
+                · cases h
+                · cases h; exact fun x hx => Or.inl hx
+              · cases h
+                intro x hx
+                rcases List.mem_append.mp hx with hx | hx
+                · exact Or.inl hx
+                · rw [List.mem_singleton] at hx
+                  subst hx
+                  exact Or.inr ⟨ho, hn, rfl⟩
+          · cases h
+
+theorem indexed3_mem {p : Nat × Nsec3} : ∀ (l : List Nsec3) (i : Nat), p ∈ indexed3 i l → p.2 ∈ l := by
+  intro l
+  induction l with
+  | nil => intro i h; simp [indexed3] at h
+  | cons r t ih =>
+    intro i h
+    simp only [indexed3, List.mem_cons] at h
+    rcases h with rfl | h
+    · exact List.mem_cons_self ..
+    · exact List.mem_cons_of_mem _ (ih (i + 1) h)
+
+theorem addEntries3_ok {qclass : Nat} {zone : Name} {first : Nsec3} {records : List Nsec3} :
+    ∀ (l : List (Nat × Nsec3)) (acc es : List Entry3), (∀ p ∈ l, p.2 ∈ records) →
+      (∀ x ∈ acc, EntryOf records x) → addEntries3 qclass zone first acc l = .ok es →
+      ∀ x ∈ es, EntryOf records x := by
+  intro l
+  induction l with
+  | nil => intro acc es _ hacc h; simp only [addEntries3, Except.ok.injEq] at h; subst h; exact hacc
+  | cons p t ih =>
+    intro acc es hl hacc h
+    unfold addEntries3 at h
+    split at h
+    · cases h
+    · rename_i acc' hadd
+      refine ih acc' es (fun q hq => hl q (List.mem_cons_of_mem _ hq)) ?_ h
+      intro x hx
+      rcases addEntry3_ok hadd x hx with h1 | ⟨h1, h2, h3⟩
+      · exact hacc x h1
+      · exact ⟨p.2, hl p (List.mem_cons_self ..), h1, h2, h3⟩
+
+theorem newEntries3_ok {records : List Nsec3} {qclass : Nat} {zone : Name} {es : List Entry3}
+    (h : newEntries3 records qclass zone = .ok es) : ∀ x ∈ es, EntryOf records x := by
+  unfold newEntries3 at h
+  split at h
+  · cases h
+  · rename_i f rest
+    exact addEntries3_ok _ [] es (fun p hp => indexed3_mem _ 0 hp) (fun x hx => nomatch hx) h
+
+theorem walkAgg_ok {H : HashFn} {es : List Entry3} {q : Name} {zoneLen : Nat} : ∀ (fuel k : Nat) (m : Entry3),
+    walkAgg H es q zoneLen fuel = .ok (k, m) → zoneLen ≤ k ∧ k < fuel := by
+  intro fuel
+  induction fuel with
+  | zero => intro k m h; simp [walkAgg] at h
+  | succ f ih =>
+    intro k m h
+    unfold walkAgg at h
+    split at h
+    · cases h
+    · rename_i hz
+      split at h
+      · cases h
+      · simp only [Except.ok.injEq, Prod.mk.injEq] at h
+        obtain ⟨rfl, _⟩ := h
+        exact ⟨by omega, by omega⟩
+      · obtain ⟨h1, h2⟩ := ih k m h
+        exact ⟨h1, by omega⟩
+
+/-- **`EvaluateAggressiveNSEC3`, arbitrary hash.**  A synthesised NXDOMAIN
+means: some proper ancestor length `k` inside the signer zone, the next-closer
+name `q.take (k+1)` strictly covered by a record WITHOUT Opt-Out — hence not a
+name of the zone's tree, and so neither is the question name. -/
+theorem evaluateAggressiveNSEC3_nx_sound {all hashed : List Name} {H : Name → Hash} {records : List Nsec3}
+    (hgen : ∀ r ∈ records, RecGenuine all hashed H r)
+    {signer q : Name} {t qclass : Nat}
+    (hclosed : ∀ n ∈ all, ∀ j, signer.length ≤ j → j ≤ n.length → n.take j ∈ all)
+    {p : List Nat}
+    (h : evaluateAggressiveNSEC3 (fun n => some (H n)) q t qclass signer records = .ok (.nxdomain, p)) :
+    q ∉ all := by
+  unfold evaluateAggressiveNSEC3 at h
+  split at h
+  · cases h
+  · split at h
+    · cases h
+    · rename_i es hes
+      have hent := newEntries3_ok hes
+      split at h
+      · cases h
+      · -- exact match: only NODATA or an error can come out
+        split at h
+        · cases h
+        · split at h
+          · cases h
+          · simp only [Except.ok.injEq, Prod.mk.injEq] at h; exact nomatch h.1
+      · split at h
+        · cases h
+        · split at h
+          · cases h
+          · rename_i k ce hwalk
+            obtain ⟨hk1, hk2⟩ := walkAgg_ok q.length k ce hwalk
+            split at h
+            · cases h
+            · split at h
+              · cases h
+              · cases h
+              · cases h
+              · rename_i nc hnc
+                split at h
+                · cases h
+                · rename_i hflag
+                  intro hq
+                  -- the next-closer cover is a genuine, non-opt-out span
+                  unfold lookupAgg at hnc
+                  simp only at hnc
+                  obtain ⟨hncm, _, hcov, _, _⟩ := (lookupHash_ok hnc).2 nc rfl
+                  obtain ⟨r, hr, hoh, hnh, hfl⟩ := hent nc hncm
+                  have hfl0 : r.flags % 2 = 0 := by
+                    have : ¬ (nc.flags % 2 == 1) = true := hflag
+                    rw [hfl] at this
+                    have := Nat.mod_two_eq_zero_or_one r.flags
+                    rcases this with h0 | h1
+                    · exact h0
+                    · exfalso; apply ‹¬ (r.flags % 2 == 1) = true›; simp [h1]
+                  have hin : q.take (k + 1) ∈ all := hclosed q hq (k + 1) (by omega) (by omega)
+                  have := (hgen r hr).gapAll hfl0 _ _ hoh hnh _ hin
+                  rw [hcov] at this
+                  cases this
 
 end SdnsVerif.Lemmas.Nsec3
